@@ -3,10 +3,11 @@
    queries described by ANY number of SAM records - the whole block_to_seq_pair pipeline (per-record rows, re-gapping
    loop over the sorted insertions, '*'-padding, column-wise flattening, right-extension): the reference row IS the
    canonical gapped reference (after its k-th base exactly the total length of the block's insertions at k), hence
-   degaps to the reference, and the query row has the same length.  PARTIAL: the CONTENT of the multi-record query row
-   (which base/'-'/'N' in which column) and the equality with the toMultiAlign --pad row are decided by the executable
-   Coq model compared byte for byte with sam.ToPairAlign and by pairs written from the statement; the window cut is
-   C15_topa_window_cut. *)
+   degaps to the reference, the query row has the same length, and the query row read through the reference row
+   (the columns where the reference row is '-' deleted) is exactly the sam toMultiAlign --pad row of the same block -
+   so every reference position carries the aligned base / '-' / 'N' the statement demands.  PARTIAL: the order of the
+   inserted bases inside the gap columns has no theorem (executable Coq model compared byte for byte with
+   sam.ToPairAlign, and pairs written from the statement); the window cut is C15_topa_window_cut. *)
 From GF Require Import Base Alphabet SymbolsDef FastaModel Cigar SamModel TopaModel TopaProofs PairProofs.
 Open Scope N_scope.
 
@@ -54,6 +55,21 @@ Theorem C02_skip_insertions_eq_toma_pad : forall ref block R Q, block <> [] -> b
   R = ref /\ exists raw, seq_from_block (length ref) block = Some raw /\ Q = fasta_seq true false 0 0 raw.
 Proof. exact skip_ins_eq_toma_pad. Qed.
 Print Assumptions C02_skip_insertions_eq_toma_pad.
+
+(* the query row through the reference row: deleting the columns where the reference row has '-' gives exactly the
+   sam toMultiAlign --pad row of the same block; any number of records, any CIGARs *)
+Theorem C02_pairk_proj_eq_toma_pad : forall ref block R Q, block <> [] -> ~ In 45 ref -> Forall (fun c => 42 <= c) ref ->
+  block_to_seq_pair ref block = Some (R, Q) ->
+  exists raw, seq_from_block (length ref) block = Some raw /\ proj R Q = fasta_seq true false 0 0 raw.
+Proof. exact pairk_proj_eq_toma_pad. Qed.
+Print Assumptions C02_pairk_proj_eq_toma_pad.
+
+(* a query without insertions: the pair is (reference, toMultiAlign --pad row) *)
+Theorem C02_pairk_no_insertions : forall ref block R Q, block <> [] -> ~ In 45 ref -> Forall (fun c => 42 <= c) ref ->
+  block_insertions block = [] -> block_to_seq_pair ref block = Some (R, Q) ->
+  R = ref /\ exists raw, seq_from_block (length ref) block = Some raw /\ Q = fasta_seq true false 0 0 raw.
+Proof. exact pairk_no_insertions. Qed.
+Print Assumptions C02_pairk_no_insertions.
 
 Example C02_example_two_records :
   block_to_seq_pair (bs "ACGTACGTACGTACGT")
